@@ -29,6 +29,11 @@ type LogClient struct {
 	FailErr  error
 	OnWrite  func(rec WriteRec) // called after every successful write
 	sequence int
+	// FailGetN > 0: the FailGetN-th Get (1-based) of an object whose kind is not ConfigMap fails with an internal
+	// error (NOT NotFound); every other Get succeeds.  0 = disabled.  GetFailed reports whether it happened.
+	FailGetN  int
+	GetFailed bool
+	getSeq    int
 	// call-level faults (reads included): FailCallN > 0 makes the FailCallN-th API call of any kind (Get, List and the
 	// mutating calls, counted together, 1-based) fail with an InternalError — exactly that one call, later calls work.
 	FailCallN int
@@ -61,9 +66,17 @@ func (l *LogClient) callFault(what string) error {
 	return nil
 }
 
+// Get counts the call (FailCallN) and, separately, the reads of non-ConfigMap objects (FailGetN).
 func (l *LogClient) Get(ctx context.Context, key client.ObjectKey, obj client.Object, opts ...client.GetOption) error {
 	if err := l.callFault("get " + kindOf(l.Scheme(), obj) + " " + key.String()); err != nil {
 		return err
+	}
+	if l.FailGetN > 0 && kindOf(l.Scheme(), obj) != "ConfigMap" {
+		l.getSeq++
+		if l.getSeq == l.FailGetN {
+			l.GetFailed = true
+			return apierrors.NewInternalError(fmt.Errorf("injected read fault at get %d (%s %s)", l.getSeq, kindOf(l.Scheme(), obj), key))
+		}
 	}
 	return l.Client.Get(ctx, key, obj, opts...)
 }
